@@ -136,9 +136,9 @@ func (b *trieBuilder) resolve(ruleGts map[int][]int, maxDepth int) *trieNode {
 					break
 				}
 			}
-			if !found && ri.allTerms {
-				// Rule can be followed by any terminal, so it's a candidate
-				// but has no specific gts to follow deeper.
+			if ri.allTerms {
+				// Rule can be followed by any terminal (at any depth), so it's a candidate
+				// that cannot be told apart from the others by looking deeper.
 				found = true
 				gts = nil
 			}
